@@ -21,6 +21,21 @@ class Boom(Exception):
     pass
 
 
+# what is put into the queue for item number i: the first few are falsy values (None is a popular end-of-work sentinel)
+_FALSY = {0: None, 1: 0, 2: "", 3: (), 4: False}
+
+
+def payload(i):
+    return _FALSY.get(i, i + 100)
+
+
+def index_of(item):
+    for i, v in _FALSY.items():
+        if item is v or (type(item) is type(v) and item == v and v is not None):
+            return i
+    return item - 100 if isinstance(item, int) else -1
+
+
 class QWorld:
     def __init__(self):
         from asyncio_taskpool.queue_context import Queue
@@ -47,7 +62,7 @@ class QWorld:
         try:
             async with self.q as item:
                 entered = True
-                self.ev("enter", c=c, item=item)
+                self.ev("enter", c=c, item=index_of(item))
                 fut = self.loop.create_future()
                 self.gates[c] = fut
                 out = await fut
@@ -75,7 +90,7 @@ class QWorld:
         if o == "put":
             i = self.nput
             self.nput += 1
-            self.q.put_nowait(i)
+            self.q.put_nowait(payload(i))
             self.ev("put", i=i)
         elif o == "consume":
             c = op["c"]
